@@ -99,7 +99,8 @@ enum Node {
     Seq(u8, Vec<Node>),
     /// 26: a text node in another representation: 0 `&'static str`, 1 `Cow::Borrowed`,
     /// 2 `Cow::Owned`, 3 `Arc<str>`, 4 `Oco::Borrowed`, 5 `Oco::Owned`, 6 `Oco::Counted`,
-    /// 7 `u32`, 8 `i64` (the text is the decimal number)
+    /// 7 `u32`, 8 `i64` (the text is the decimal number), 9 `ArcRwSignal<String>`,
+    /// 10 `RwSignal<String>` (signals as views: `.get()`, then the text)
     TextRep(u8, String),
     /// 27: element whose children are added by chained `.child(a).child(b)…` calls (2..=4)
     ElemN(usize, Vec<Node>),
@@ -123,6 +124,9 @@ enum Node {
     WithAttr(Box<Node>),
     /// 25: `Suspend::new(async { f.await; span().child(child) }).add_any_attr(data-j="v")` (typed)
     SuspendAttr(u32, Box<Node>),
+    /// 28: `move || local.get().map(|_| child)`: synchronous read of a `LocalResource` (None on
+    /// the server; tells the enclosing `<Suspense>` that it can never resolve)
+    LocalRead(Box<Node>),
 }
 
 fn parse(s: &Sexp) -> Node {
@@ -163,6 +167,7 @@ fn parse(s: &Sexp) -> Node {
         23 => Node::InnerHtml(s.at(1).string().unwrap_or_default()),
         24 => Node::WithAttr(Box::new(parse(s.at(1)))),
         25 => Node::SuspendAttr(s.at(1).num() as u32, Box::new(parse(s.at(2)))),
+        28 => Node::LocalRead(Box::new(parse(s.at(1)))),
         13 => Node::Res(s.at(1).num() as u32, Box::new(parse(s.at(2)))),
         14 => Node::LocalSuspend {
             f: s.at(1).num() as u32,
@@ -196,6 +201,7 @@ fn kids(n: &Node) -> Vec<&Node> {
         | Node::Await(_, _, c)
         | Node::Rich(_, _, c)
         | Node::WithAttr(c)
+        | Node::LocalRead(c)
         | Node::SuspendAttr(_, c) => vec![c],
         Node::LocalSuspend { content, .. } => vec![content],
         Node::Suspense(a, b, _) | Node::Transition(a, b, _) => vec![a, b],
@@ -254,6 +260,7 @@ fn is_leptos_node(n: &Node) -> bool {
             | Node::Unsuspend(_)
             | Node::ResView(..)
             | Node::Await(..)
+            | Node::LocalRead(_)
     )
 }
 
@@ -409,7 +416,9 @@ fn build(n: &Node, rxs: &Rxs) -> AnyView {
                 5 => Oco::<'static, str>::Owned(s.clone()).into_any(),
                 6 => Oco::<'static, str>::Counted(Arc::from(s.as_str())).into_any(),
                 7 => s.parse::<u32>().expect("number").into_any(),
-                _ => s.parse::<i64>().expect("number").into_any(),
+                8 => s.parse::<i64>().expect("number").into_any(),
+                9 => leptos::prelude::ArcRwSignal::new(s.clone()).into_any(),
+                _ => leptos::prelude::RwSignal::new(s.clone()).into_any(),
             }
         }
         Node::ElemN(t, cs) => {
@@ -554,7 +563,40 @@ fn build(n: &Node, rxs: &Rxs) -> AnyView {
         }
         Node::WithAttr(c) => {
             use tachys::html::attribute::custom::custom_attribute;
-            build(c, rxs).add_any_attr(custom_attribute("data-k", "v")).into_any()
+            let attr = custom_attribute("data-k", "v");
+            // the typed `AddAnyAttr` impls of tuples / Vec / Option / the Suspense boundary where
+            // the child has that shape, else the erased view (`AnyViewWithAttrs`)
+            match &**c {
+                Node::Tuple(cs) if cs.len() == 2 => {
+                    (build(&cs[0], rxs), build(&cs[1], rxs)).add_any_attr(attr).into_any()
+                }
+                Node::Tuple(cs) if cs.len() == 3 => {
+                    (build(&cs[0], rxs), build(&cs[1], rxs), build(&cs[2], rxs)).add_any_attr(attr).into_any()
+                }
+                Node::VecOf(cs) => cs.iter().map(|c| build(c, rxs)).collect::<Vec<_>>().add_any_attr(attr).into_any(),
+                Node::Opt(Some(c)) => Some(build(c, rxs)).add_any_attr(attr).into_any(),
+                Node::Suspense(fb, c, false) => {
+                    use leptos::prelude::*;
+                    let (fb, c, rxs, rxs2) = ((**fb).clone(), (**c).clone(), rxs.clone(), rxs.clone());
+                    view! { <Suspense fallback=move || build(&fb, &rxs2)>{build(&c, &rxs)}</Suspense> }
+                        .add_any_attr(attr)
+                        .into_any()
+                }
+                Node::Transition(fb, c, false) => {
+                    use leptos::prelude::*;
+                    let (fb, c, rxs, rxs2) = ((**fb).clone(), (**c).clone(), rxs.clone(), rxs.clone());
+                    view! { <Transition fallback=move || build(&fb, &rxs2)>{build(&c, &rxs)}</Transition> }
+                        .add_any_attr(attr)
+                        .into_any()
+                }
+                _ => build(c, rxs).add_any_attr(attr).into_any(),
+            }
+        }
+        Node::LocalRead(c) => {
+            use leptos::prelude::*;
+            let (c, rxs) = ((**c).clone(), rxs.clone());
+            let local = LocalResource::new(|| async { 42 });
+            (move || local.get().map(|_| build(&c, &rxs))).into_any()
         }
         Node::SuspendAttr(f, c) => {
             use tachys::html::attribute::custom::custom_attribute;
